@@ -30,6 +30,12 @@ def und_family(name):
 def dir_family(name):
     from verif.props.C12 import cand_family
 
+    if name == "n4q":
+        # 9 candidates incl. a target and a source set that overlap in three nodes (thresholds s = 3 matter)
+        nodes = [0, 1, 2, 3]
+        c = [((0,), (1,)), ((1,), (0,)), ((0, 1), (2,)), ((2,), (0, 1)), ((3,), (0, 1, 2)), ((0, 1, 2), (3,)),
+             ((2, 3), (0, 1)), ((0, 1), (2, 3)), ((1,), (2, 3))]
+        return nodes, c
     return cand_family(name)
 
 
